@@ -156,6 +156,40 @@ func checkRenderTypes(w *World, r *Result) {
 				}
 			}
 		}
+		// through a helper that appends its parameter (a local closure `addType := func(ty) { if ty != nil {
+		// all = append(all, ty) } }`, or a function of the package)
+		ast.Inspect(rs.Body, func(y ast.Node) bool {
+			call, ok := y.(*ast.CallExpr)
+			if !ok {
+				return true
+			}
+			body, binfo, params := callbackOf(w, rt, call.Fun)
+			if body == nil || params == nil {
+				return true
+			}
+			var pobjs []types.Object
+			for _, f := range params.List {
+				for _, nm := range f.Names {
+					pobjs = append(pobjs, binfo.Defs[nm])
+				}
+			}
+			for _, app := range appendStmts(binfo, body, "") {
+				for _, a := range app.Rhs[0].(*ast.CallExpr).Args[1:] {
+					id := identOf(a)
+					if id == nil {
+						continue
+					}
+					for k, po := range pobjs {
+						if objOf(binfo, id) == po && k < len(call.Args) {
+							if p := slotPath(info, call.Args[k], roots); p != "" {
+								collected[p] = true
+							}
+						}
+					}
+				}
+			}
+			return true
+		})
 		return true
 	})
 	var keys []string
@@ -267,63 +301,221 @@ func checkAxiosShape(w *World, r *Result) {
 		return true
 	})
 	r.cond(nameOK, "SHP-C14m", gm.Name, "method named after the handler", fnPos(w, gm), "the first template argument is Contract.Name", "the generated method is not named by Contract.Name")
-	// call shape chain
+	// call shape: decided by evaluation. The three predicates (form data? JSON body? does the verb expect a body?) are
+	// given every combination of truth values and the control flow of generateAxiosCall is followed to the return it
+	// reaches; the body argument of the Axios call built there must be formData / params / null / none, in that
+	// priority. Whatever the chain is written as (else-if, sequential returns, switch) the table is the same.
 	gc := w.MustFunc("generator/typescript.generateAxiosCall")
 	cinfo := gc.Pkg.TypesInfo
-	var chain []string
-	endsElse := false
-	for _, st := range gc.Decl.Body.List {
-		is, ok := st.(*ast.IfStmt)
-		if !ok || is.Else == nil {
-			continue
-		}
-		for cur := is; cur != nil; {
-			chain = append(chain, condCalls(cinfo, cur.Cond))
-			switch e := cur.Else.(type) {
-			case *ast.IfStmt:
-				cur = e
-			case *ast.BlockStmt:
-				endsElse = true
-				cur = nil
-			default:
-				cur = nil
+	preds := []string{"withFormData", "hasBodyInput", "expectBodyParam"}
+	evaluated := true
+	var evalCond func(e ast.Expr, val map[string]bool) (bool, bool)
+	evalCond = func(e ast.Expr, val map[string]bool) (bool, bool) {
+		switch v := ast.Unparen(e).(type) {
+		case *ast.CallExpr:
+			if fn := calleeOf(cinfo, v); fn != nil {
+				if b, ok := val[fn.Name()]; ok {
+					return b, true
+				}
+			}
+		case *ast.UnaryExpr:
+			if v.Op == token.NOT {
+				b, ok := evalCond(v.X, val)
+				return !b, ok
+			}
+		case *ast.BinaryExpr:
+			if v.Op == token.LAND || v.Op == token.LOR {
+				x, ok1 := evalCond(v.X, val)
+				y, ok2 := evalCond(v.Y, val)
+				if ok1 && ok2 {
+					if v.Op == token.LAND {
+						return x && y, true
+					}
+					return x || y, true
+				}
 			}
 		}
+		return false, false
 	}
-	want := []string{"withFormData", "hasBodyInput", "!hasBodyInput&expectBodyParam"}
-	wantAlt := []string{"withFormData", "hasBodyInput", "expectBodyParam"}
-	okChain := strings.Join(chain, " > ") == strings.Join(want, " > ") || strings.Join(chain, " > ") == strings.Join(wantAlt, " > ")
-	r.cond(okChain && endsElse, "SHP-C14c", gc.Name, "call-shape chain", fnPos(w, gc), "form data > JSON body > verb expects a body > else, in that order, ending in an unconditional else", "the call-shape chain is {"+strings.Join(chain, " > ")+"} (ends in else: "+boolStr(endsElse)+"): some endpoint kind gets no call or the wrong body argument")
-	// null body exactly in the expectBodyParam branch; body argument `params` in hasBodyInput, `formData` in form branch
-	branchArg := map[string]string{}
-	for _, st := range gc.Decl.Body.List {
-		is, ok := st.(*ast.IfStmt)
-		if !ok || is.Else == nil {
-			continue
-		}
-		for cur := is; cur != nil; {
-			lbl := condCalls(cinfo, cur.Cond)
-			branchArg[lbl] = axiosBodyArg(cinfo, cur.Body)
-			switch e := cur.Else.(type) {
-			case *ast.IfStmt:
-				cur = e
+	var run func(list []ast.Stmt, val map[string]bool) *ast.ReturnStmt
+	run = func(list []ast.Stmt, val map[string]bool) *ast.ReturnStmt {
+		for _, st := range list {
+			switch s := st.(type) {
+			case *ast.ReturnStmt:
+				return s
 			case *ast.BlockStmt:
-				branchArg["else"] = axiosBodyArg(cinfo, e)
-				cur = nil
-			default:
-				cur = nil
+				if r := run(s.List, val); r != nil {
+					return r
+				}
+			case *ast.IfStmt:
+				c, ok := evalCond(s.Cond, val)
+				if s.Init != nil {
+					ok = false
+				}
+				if !ok {
+					// a test on something else (does the endpoint return a value?): it must not decide which
+					// return is reached
+					hasRet := false
+					ast.Inspect(s, func(y ast.Node) bool {
+						if _, isRet := y.(*ast.ReturnStmt); isRet {
+							hasRet = true
+						}
+						return true
+					})
+					if hasRet {
+						evaluated = false
+						return nil
+					}
+					continue
+				}
+				var next []ast.Stmt
+				if c {
+					next = s.Body.List
+				} else if s.Else != nil {
+					switch e := s.Else.(type) {
+					case *ast.BlockStmt:
+						next = e.List
+					case *ast.IfStmt:
+						next = []ast.Stmt{e}
+					}
+				}
+				if r := run(next, val); r != nil {
+					return r
+				}
+			case *ast.SwitchStmt:
+				if s.Tag != nil || s.Init != nil {
+					evaluated = false
+					return nil
+				}
+				var deflt *ast.CaseClause
+				taken := false
+				for _, cl := range s.Body.List {
+					cc := cl.(*ast.CaseClause)
+					if cc.List == nil {
+						deflt = cc
+						continue
+					}
+					hit := false
+					for _, ce := range cc.List {
+						c, ok := evalCond(ce, val)
+						if !ok {
+							evaluated = false
+							return nil
+						}
+						hit = hit || c
+					}
+					if hit {
+						taken = true
+						if r := run(cc.Body, val); r != nil {
+							return r
+						}
+						break
+					}
+				}
+				if !taken && deflt != nil {
+					if r := run(deflt.Body, val); r != nil {
+						return r
+					}
+				}
 			}
 		}
+		return nil
 	}
-	expect := map[string]string{"withFormData": "formData", "hasBodyInput": "params", "else": ""}
-	for k, v := range expect {
-		r.cond(branchArg[k] == v, "SHP-C14c", gc.Name, "body argument in branch "+k, fnPos(w, gc), "second argument of the Axios call is `"+v+"`", "branch "+k+" passes `"+branchArg[k]+"` as request body instead of `"+v+"`")
+	table := map[string]string{} // valuation -> body argument
+	for m := 0; m < 8 && evaluated; m++ {
+		val := map[string]bool{}
+		key := ""
+		for i, p := range preds {
+			val[p] = m&(1<<i) != 0
+			if val[p] {
+				key += "1"
+			} else {
+				key += "0"
+			}
+		}
+		ret := run(gc.Decl.Body.List, val)
+		if ret == nil {
+			evaluated = false
+			break
+		}
+		table[key] = axiosBodyArg(cinfo, &ast.BlockStmt{List: []ast.Stmt{ret}})
 	}
-	nullBranch := branchArg["!hasBodyInput&expectBodyParam"]
-	if nullBranch == "" {
-		nullBranch = branchArg["expectBodyParam"]
+	if evaluated {
+		wantArg := func(key string) string {
+			switch {
+			case key[0] == '1':
+				return "formData"
+			case key[1] == '1':
+				return "params"
+			case key[2] == '1':
+				return "null"
+			}
+			return ""
+		}
+		bad := ""
+		for key, got := range table {
+			if got != wantArg(key) {
+				bad += "form=" + key[0:1] + " body=" + key[1:2] + " verbExpectsBody=" + key[2:3] + " passes `" + got + "` instead of `" + wantArg(key) + "`; "
+			}
+		}
+		r.cond(bad == "", "SHP-C14c", gc.Name, "call-shape chain", fnPos(w, gc), "evaluated over the eight combinations of (form data, JSON body, verb expects a body): formData first, then params, then null for a body-less POST/PUT, else no body argument", "the body argument of the Axios call is wrong for some endpoint kinds: "+bad)
+	} else {
+		var chain []string
+		endsElse := false
+		for _, st := range gc.Decl.Body.List {
+			is, ok := st.(*ast.IfStmt)
+			if !ok || is.Else == nil {
+				continue
+			}
+			for cur := is; cur != nil; {
+				chain = append(chain, condCalls(cinfo, cur.Cond))
+				switch e := cur.Else.(type) {
+				case *ast.IfStmt:
+					cur = e
+				case *ast.BlockStmt:
+					endsElse = true
+					cur = nil
+				default:
+					cur = nil
+				}
+			}
+		}
+		want := []string{"withFormData", "hasBodyInput", "!hasBodyInput&expectBodyParam"}
+		wantAlt := []string{"withFormData", "hasBodyInput", "expectBodyParam"}
+		okChain := strings.Join(chain, " > ") == strings.Join(want, " > ") || strings.Join(chain, " > ") == strings.Join(wantAlt, " > ")
+		r.cond(okChain && endsElse, "SHP-C14c", gc.Name, "call-shape chain", fnPos(w, gc), "form data > JSON body > verb expects a body > else, in that order, ending in an unconditional else", "the call-shape chain is {"+strings.Join(chain, " > ")+"} (ends in else: "+boolStr(endsElse)+"): some endpoint kind gets no call or the wrong body argument")
+		// null body exactly in the expectBodyParam branch; body argument `params` in hasBodyInput, `formData` in form branch
+		branchArg := map[string]string{}
+		for _, st := range gc.Decl.Body.List {
+			is, ok := st.(*ast.IfStmt)
+			if !ok || is.Else == nil {
+				continue
+			}
+			for cur := is; cur != nil; {
+				lbl := condCalls(cinfo, cur.Cond)
+				branchArg[lbl] = axiosBodyArg(cinfo, cur.Body)
+				switch e := cur.Else.(type) {
+				case *ast.IfStmt:
+					cur = e
+				case *ast.BlockStmt:
+					branchArg["else"] = axiosBodyArg(cinfo, e)
+					cur = nil
+				default:
+					cur = nil
+				}
+			}
+		}
+		expect := map[string]string{"withFormData": "formData", "hasBodyInput": "params", "else": ""}
+		for k, v := range expect {
+			r.cond(branchArg[k] == v, "SHP-C14c", gc.Name, "body argument in branch "+k, fnPos(w, gc), "second argument of the Axios call is `"+v+"`", "branch "+k+" passes `"+branchArg[k]+"` as request body instead of `"+v+"`")
+		}
+		nullBranch := branchArg["!hasBodyInput&expectBodyParam"]
+		if nullBranch == "" {
+			nullBranch = branchArg["expectBodyParam"]
+		}
+		r.cond(nullBranch == "null", "SHP-C14c", gc.Name, "null body for body-less POST/PUT", fnPos(w, gc), "Axios.post/put(fullUrl, null, ...)", "a body-less POST/PUT does not pass null as body: the config object is sent as the body")
+
 	}
-	r.cond(nullBranch == "null", "SHP-C14c", gc.Name, "null body for body-less POST/PUT", fnPos(w, gc), "Axios.post/put(fullUrl, null, ...)", "a body-less POST/PUT does not pass null as body: the config object is sent as the body")
 	// expectBodyParam = POST or PUT
 	eb := w.MustFunc("generator/typescript.expectBodyParam")
 	verbs := map[string]bool{}
